@@ -20,6 +20,10 @@ def leaf_label(why: str) -> str:
     last = re.sub(r":\d+\b", "", last)
     last = re.sub(r" (at )?line \d+", "", last)
     last = last.split(" lacks [")[0]
+    # what raises, not where: the enclosing function's name changes under behaviour-preserving refactoring
+    last = re.sub(r" at [A-Za-z_][\w.<>]*$", "", last.strip())
+    last = re.sub(r"^(unpacking|subscript) .*", r"\1 of a list whose length the grammar does not guarantee", last)
+    last = re.sub(r"^\S+\[(-?\d+)\] but it can have .*", r"index \1 of a list whose length the grammar does not guarantee", last)
     return last.strip()[:120]
 
 
@@ -318,7 +322,12 @@ class Walker(ExprMixin):
         if h.type is None:
             return None
         out: List[str] = []
-        elts = h.type.elts if isinstance(h.type, ast.Tuple) else [h.type]
+        htype = h.type
+        if isinstance(htype, (ast.Name, ast.Attribute)) and not (isinstance(htype, ast.Name) and htype.id in self.env and self.env[htype.id].excs):
+            shown = self.display_of(htype)
+            if isinstance(shown, ast.Tuple):
+                htype = shown
+        elts = htype.elts if isinstance(htype, ast.Tuple) else [htype]
         for e in elts:
             d = dotted(e)
             if isinstance(e, ast.Name) and e.id in self.env and self.env[e.id].excs:
@@ -438,7 +447,7 @@ class Walker(ExprMixin):
             env[name] = Val(kinds=keep, calls=v.calls, elem=v.elem, excs=v.excs if pol else FS(), lit=v.lit, pos=v.pos, strs=v.strs, empty=v.empty)
             return True
         if isinstance(t, ast.Compare) and len(t.ops) == 1:
-            left, op, right = strip_cast(t.left), t.ops[0], strip_cast(t.comparators[0])
+            left, op, right = strip_cast(t.left), t.ops[0], self.display_of(t.comparators[0])
             # x is None / x is not None
             if isinstance(op, (ast.Is, ast.IsNot)) and isinstance(right, ast.Constant) and right.value is None:
                 want_none = isinstance(op, ast.Is) == pol
@@ -473,6 +482,28 @@ class Walker(ExprMixin):
                     return False
             return True
         return True
+
+    def cls_node(self) -> Optional[ast.ClassDef]:
+        found = self.eng.find_class(self.cv.cls) if self.cv.cls else None
+        return found[1] if found else None
+
+    def display_of(self, node: ast.AST) -> ast.AST:
+        """A named constant (local, class attribute, module global) seen as the display it was assigned;
+        ``frozenset({...})`` / ``set([...])`` / ``tuple([...])`` seen as their argument."""
+        from .model import deref
+
+        fn = self.node if not isinstance(self.node, ast.Lambda) else None
+        node = strip_cast(node)
+        if isinstance(node, ast.Name) and node.id in self.env and (self.env[node.id].kinds is not None or self.env[node.id].rules is not None):
+            return node
+        for _ in range(3):
+            nxt = deref(self.mod, node, self.cls_node(), fn)
+            if isinstance(nxt, ast.Call) and dotted(nxt.func) in ("frozenset", "set", "tuple", "list") and len(nxt.args) == 1 and not nxt.keywords:
+                nxt = strip_cast(nxt.args[0])
+            if nxt is node:
+                break
+            node = nxt
+        return node
 
     def narrow_tree(self, left, op, right, pol: bool, env: Dict[str, Val]) -> bool:
         g = self.eng.g
